@@ -3,7 +3,7 @@
 From Coq Require Import List String Bool Arith.
 From Coq Require Import Floats.PrimFloat.
 From PAFCommon Require Import PyFloat.
-From PAFC01 Require Import ModelTree.
+From PAFC01 Require Import ModelTree PyArith.
 Import ListNotations.
 Local Open Scope string_scope.
 Local Open Scope list_scope.
@@ -14,6 +14,8 @@ Definition fbin (o : binop) (a b : float) : float :=
   | OSub => PrimFloat.sub a b
   | OMul => PrimFloat.mul a b
   | ODiv => PrimFloat.div a b
+  | OFloorDiv => py_floordiv a b       (* defined for b <> 0; Python raises ZeroDivisionError otherwise *)
+  | OMod => py_mod a b
   end.
 
 (* Python float __neg__ / __abs__: sign bit flipped / cleared (exact) *)
